@@ -13,6 +13,16 @@ import dynetx as dn
 from . import observe
 
 
+class _OneShot:
+    """an nbunch that can be iterated only once per call (a generator), as the docstrings allow"""
+
+    def __init__(self, items):
+        self.items = list(dict.fromkeys(items))
+
+    def fresh(self):
+        return (x for x in self.items)
+
+
 def static_graph(G, nodes_all, P, t):
     S = nx.DiGraph() if G.is_directed() else nx.Graph()
     for n, d in G.nodes(data=True):
@@ -75,14 +85,19 @@ def check(G, conf, nodes_all, P, t, known_nodes, z):
 
     nb_menu = [('none', None)] + [('single', n) for n in known_nodes] + \
               [('list', list(dict.fromkeys([known_nodes[0], known_nodes[-1]]))), ('list+unknown', [known_nodes[0], z]),
-               ('unknown-only', [z]), ('empty', [])]
+               ('unknown-only', [z]), ('empty', []), ('iterator', _OneShot([known_nodes[-1], z, known_nodes[0]]))]
 
     def nb_known(nb):
         if nb is None:
             return None
+        if isinstance(nb, _OneShot):
+            return list(dict.fromkeys(n for n in nb.items if n in S))
         if isinstance(nb, list):
             return [n for n in nb if n in S]
         return [nb]
+
+    def arg(nb):
+        return nb.fresh() if isinstance(nb, _OneShot) else nb
 
     # ---- interaction listings
     listing = [('interactions', lambda nb: G.interactions(nb, **kw), 'out'),
@@ -95,7 +110,7 @@ def check(G, conf, nodes_all, P, t, known_nodes, z):
                     ('in_interactions_iter', lambda nb: list(G.in_interactions_iter(nb, **kw)), 'in')]
     for entry, fn, mode in listing:
         for nbk, nb in nb_menu:
-            ok, got = guarded(entry, lambda: fn(nb))
+            ok, got = guarded(entry, lambda: fn(arg(nb)))
             if not ok:
                 continue
             gotc = _pairs(G, got)
@@ -115,11 +130,6 @@ def check(G, conf, nodes_all, P, t, known_nodes, z):
                     kind = 'missing'
                     feat['reverse_listed'] = bool(directed and all((k[1], k[0]) in gotc for k in missing))
                 bad(entry, kind, sorted(gotc.elements(), key=repr), sorted(want, key=repr), **feat)
-            elif tg:
-                for it in got:
-                    if len(it) > 2 and it[2] != {'t': [t]}:
-                        bad(entry, 'third-component', it, {'t': [t]})
-                        break
 
     # ---- neighbourhoods
     nbr = [('neighbors', lambda n: G.neighbors(n, **kw), 'succ'), ('neighbors_iter', lambda n: list(G.neighbors_iter(n, **kw)), 'succ'),
@@ -176,7 +186,7 @@ def check(G, conf, nodes_all, P, t, known_nodes, z):
                  ('out_degree', lambda nb: G.out_degree(nb, **kw), 'out'), ('out_degree_iter', lambda nb: dict(G.out_degree_iter(nb, **kw)), 'out')]
     for entry, fn, kind in degs:
         for nbk, nb in nb_menu:
-            ok, got = guarded(entry, lambda: fn(nb))
+            ok, got = guarded(entry, lambda: fn(arg(nb)))
             if not ok:
                 continue
             if nbk == 'single' and not entry.endswith('_iter'):
